@@ -66,9 +66,9 @@ func c03Setup(t *rapid.T) *c03Env {
 		t.Fatalf("VERIF-INFRA: cannot listen on loopback: %v", err)
 	}
 	env := &c03Env{gwIdx: -1, store: map[string][]byte{}}
-	env.nLocal = rapid.IntRange(1, 4).Draw(t, "nLocal")
-	env.retries = rapid.IntRange(0, 3).Draw(t, "retries")
-	withGW := rapid.IntRange(0, 3).Draw(t, "gateway") == 0
+	env.nLocal = c03UR(t, "nLocal", 1, 4)
+	env.retries = c03UR(t, "retries", 0, 3)
+	withGW := c03U(t, "gateway", 4) == 0
 	n := env.nLocal
 	if withGW {
 		env.gwIdx = n
@@ -124,6 +124,23 @@ func (env *c03Env) svcsFor(usesGW bool) []int {
 
 // ---------------------------------------------------------------- generators
 
+// c03U draws an integer uniformly from [0,n). rapid's own integer generators
+// are deliberately biased towards small values and the bounds, which is what
+// we want for magnitudes but not for choosing between categories.
+func c03U(t *rapid.T, label string, n int) int {
+	bits := rapid.SliceOfN(rapid.Bool(), 12, 12).Draw(t, label)
+	v := 0
+	for _, b := range bits {
+		v <<= 1
+		if b {
+			v |= 1
+		}
+	}
+	return v % n
+}
+
+func c03UR(t *rapid.T, label string, lo, hi int) int { return lo + c03U(t, label, hi-lo+1) }
+
 func c03Fill(n int, seed uint64) []byte {
 	out := make([]byte, n)
 	x := seed*2862933555777941757 + 3037000493
@@ -158,7 +175,7 @@ func c03SizeLabel(n int) string {
 
 // c03GenContent draws a block. big=false keeps blocks small (multi-block cases).
 func c03GenContent(t *rapid.T, label string, big bool) []byte {
-	cls := rapid.IntRange(0, 19).Draw(t, label+"SizeClass")
+	cls := c03U(t, label+"SizeClass", 20)
 	var n int
 	switch {
 	case cls == 0:
@@ -193,8 +210,8 @@ func c03GenBlock(t *rapid.T, env *c03Env, label string, big bool, unsizedPct int
 	b.hash = fmt.Sprintf("%x", md5.Sum(b.content))
 	env.store[b.hash] = b.content
 	b.loc = b.hash
-	form := rapid.IntRange(0, 9).Draw(t, label+"LocForm")
-	if unsizedPct > 0 && rapid.IntRange(0, 99).Draw(t, label+"Unsized") < unsizedPct {
+	form := c03U(t, label+"LocForm", 10)
+	if unsizedPct > 0 && c03U(t, label+"Unsized", 100) < unsizedPct {
 		return b
 	}
 	b.sized = true
@@ -227,26 +244,26 @@ var (
 )
 
 func c03GenBeh(t *rapid.T, label string, okWeight int) c03Beh {
-	cat := rapid.IntRange(0, 99).Draw(t, label+"Cat")
+	cat := c03U(t, label+"Cat", 100)
 	var b c03Beh
 	switch {
 	case cat < okWeight:
-		b.Kind = rapid.SampledFrom(c03OKKinds).Draw(t, label+"Kind")
+		b.Kind = c03OKKinds[c03U(t, label+"Kind", len(c03OKKinds))]
 	case cat < okWeight+(100-okWeight)*5/10:
-		b.Kind = rapid.SampledFrom(c03BadKinds).Draw(t, label+"Kind")
+		b.Kind = c03BadKinds[c03U(t, label+"Kind", len(c03BadKinds))]
 	case cat < okWeight+(100-okWeight)*65/100:
-		b.Kind = rapid.SampledFrom(c03PermKinds).Draw(t, label+"Kind")
+		b.Kind = c03PermKinds[c03U(t, label+"Kind", len(c03PermKinds))]
 	default:
-		b.Kind = rapid.SampledFrom(c03RetryKinds).Draw(t, label+"Kind")
+		b.Kind = c03RetryKinds[c03U(t, label+"Kind", len(c03RetryKinds))]
 	}
 	switch b.Kind {
 	case kOK, k404, kResetBefore, kCloseBefore, kOKClose:
 	case kPermStatus:
-		b.Code = rapid.SampledFrom(c03PermCodes).Draw(t, label+"Code")
+		b.Code = c03PermCodes[c03U(t, label+"Code", len(c03PermCodes))]
 	case kRetryStatus:
-		b.Code = rapid.SampledFrom(c03RetryCodes).Draw(t, label+"Code")
+		b.Code = c03RetryCodes[c03U(t, label+"Code", len(c03RetryCodes))]
 	default:
-		switch rapid.IntRange(0, 3).Draw(t, label+"PClass") {
+		switch c03U(t, label+"PClass", 4) {
 		case 0:
 			b.P = 0
 		case 1:
@@ -260,7 +277,7 @@ func c03GenBeh(t *rapid.T, label string, okWeight int) c03Beh {
 		b.HdrCut = rapid.Bool().Draw(t, label+"HdrCut")
 	}
 	if b.Kind.class() != clsRetry || b.Kind == kRetryStatus {
-		b.Split = rapid.IntRange(0, 3).Draw(t, label+"Split") * rapid.IntRange(0, 5000).Draw(t, label+"SplitAt")
+		b.Split = c03U(t, label+"Split", 3) * rapid.IntRange(1, 5000).Draw(t, label+"SplitAt")
 	}
 	return b
 }
@@ -268,7 +285,7 @@ func c03GenBeh(t *rapid.T, label string, okWeight int) c03Beh {
 // c03GenScripts fills the per-service scripts and defaults.
 func c03GenScripts(t *rapid.T, env *c03Env, okWeight int) {
 	for i, s := range env.f.svcs {
-		n := rapid.IntRange(0, env.retries+2).Draw(t, fmt.Sprintf("svc%dScriptLen", i))
+		n := c03U(t, fmt.Sprintf("svc%dScriptLen", i), env.retries+3)
 		for j := 0; j < n; j++ {
 			s.script = append(s.script, c03GenBeh(t, fmt.Sprintf("svc%d_%d", i, j), okWeight))
 		}
@@ -441,7 +458,7 @@ func TestVerifC03Get(t *testing.T) {
 		defer env.finish(t)
 		blk := c03GenBlock(t, env, "blk", true, 20)
 		c03GenScripts(t, env, 35)
-		mode := rapid.SampledFrom([]string{"stream", "stream", "writeto", "earlyclose"}).Draw(t, "mode")
+		mode := []string{"stream", "stream", "writeto", "earlyclose"}[c03U(t, "mode", 4)]
 		content := blk.content
 		script := env.scriptString()
 		shortcut := strings.HasPrefix(blk.loc, "d41d8cd98f00b204e9800998ecf8427e+0")
@@ -456,7 +473,7 @@ func TestVerifC03Get(t *testing.T) {
 			case "stream":
 				for i := 0; i < 1<<22; i++ {
 					var bs int
-					switch rapid.IntRange(0, 3).Draw(t, "readSizeClass") {
+					switch c03U(t, "readSizeClass", 4) {
 					case 0:
 						bs = 1
 					case 1:
@@ -500,7 +517,7 @@ func TestVerifC03Get(t *testing.T) {
 			case "earlyclose":
 				want := 0
 				if len(content) > 0 {
-					switch rapid.IntRange(0, 3).Draw(t, "prefixClass") {
+					switch c03U(t, "prefixClass", 4) {
 					case 0:
 						want = 0
 					case 1:
@@ -658,11 +675,11 @@ func TestVerifC03Cache(t *testing.T) {
 	rapid.Check(t, func(t *rapid.T) {
 		env := c03Setup(t)
 		defer env.finish(t)
-		env.kc.BlockCache.MaxBlocks = rapid.SampledFrom([]int{0, 0, 1, 2}).Draw(t, "maxBlocks")
-		nblk := rapid.IntRange(1, 3).Draw(t, "nBlocks")
+		env.kc.BlockCache.MaxBlocks = []int{0, 0, 1, 2}[c03U(t, "maxBlocks", 4)]
+		nblk := c03UR(t, "nBlocks", 1, 3)
 		var blks []*c03Block
 		for i := 0; i < nblk; i++ {
-			b := c03GenBlock(t, env, fmt.Sprintf("blk%d", i), i == 0, 8)
+			b := c03GenBlock(t, env, fmt.Sprintf("blk%d", i), i == 0, 3)
 			dup := false
 			for _, o := range blks {
 				if o.hash == b.hash {
@@ -680,12 +697,12 @@ func TestVerifC03Cache(t *testing.T) {
 		lastErr := map[string]bool{}  // block -> its most recent ReadAt failed
 		everOK := map[string]bool{}   // block -> some ReadAt succeeded before
 		var all []c03Req
-		nsteps := rapid.IntRange(2, 10).Draw(t, "nSteps")
+		nsteps := c03UR(t, "nSteps", 2, 10)
 		anySized := true
 		readat := func(b *c03Block, label string) {
 			var off, plen int
 			n := len(b.content)
-			switch rapid.IntRange(0, 5).Draw(t, label+"OffClass") {
+			switch c03U(t, label+"OffClass", 6) {
 			case 0:
 				off = 0
 			case 1:
@@ -697,7 +714,7 @@ func TestVerifC03Cache(t *testing.T) {
 			default:
 				off = rapid.IntRange(0, n).Draw(t, label+"Off")
 			}
-			switch rapid.IntRange(0, 4).Draw(t, label+"LenClass") {
+			switch c03U(t, label+"LenClass", 5) {
 			case 0:
 				plen = n
 			case 1:
@@ -742,7 +759,7 @@ func TestVerifC03Cache(t *testing.T) {
 		}
 		for s := 0; s < nsteps; s++ {
 			lbl := fmt.Sprintf("step%d", s)
-			switch rapid.IntRange(0, 9).Draw(t, lbl+"Op") {
+			switch c03U(t, lbl+"Op", 10) {
 			case 0:
 				env.f.setAll(c03Beh{Kind: kOK})
 				hist = append(hist, "-- all services answer correctly from now on")
@@ -751,7 +768,7 @@ func TestVerifC03Cache(t *testing.T) {
 				env.f.setAll(b)
 				hist = append(hist, fmt.Sprintf("-- all services answer %v from now on", b))
 			default:
-				readat(blks[rapid.IntRange(0, len(blks)-1).Draw(t, lbl+"Blk")], lbl)
+				readat(blks[c03U(t, lbl+"Blk", len(blks))], lbl)
 			}
 		}
 		// (iii) heal, then every block must be readable, and with a new request if its last read failed
@@ -807,7 +824,7 @@ func c03GenManifest(t *rapid.T, env *c03Env) (string, []c03FileSpec, []*c03Block
 	var sb strings.Builder
 	var files []c03FileSpec
 	var blocks []*c03Block
-	nstreams := rapid.IntRange(1, 2).Draw(t, "nStreams")
+	nstreams := c03UR(t, "nStreams", 1, 2)
 	for si := 0; si < nstreams; si++ {
 		dir := "."
 		if si > 0 {
@@ -816,7 +833,7 @@ func c03GenManifest(t *rapid.T, env *c03Env) (string, []c03FileSpec, []*c03Block
 		sb.WriteString(dir)
 		var data []byte
 		bounds := []int{0}
-		nblocks := rapid.IntRange(1, 3).Draw(t, fmt.Sprintf("s%dBlocks", si))
+		nblocks := c03UR(t, fmt.Sprintf("s%dBlocks", si), 1, 3)
 		for bi := 0; bi < nblocks; bi++ {
 			b := c03GenBlock(t, env, fmt.Sprintf("s%db%d", si, bi), false, 0)
 			blocks = append(blocks, b)
@@ -827,11 +844,11 @@ func c03GenManifest(t *rapid.T, env *c03Env) (string, []c03FileSpec, []*c03Block
 		total := len(data)
 		pick := func(label string, lo int) int {
 			var v int
-			switch rapid.IntRange(0, 2).Draw(t, label+"Kind") {
+			switch c03U(t, label+"Kind", 3) {
 			case 0:
-				v = bounds[rapid.IntRange(0, len(bounds)-1).Draw(t, label+"B")]
+				v = bounds[c03U(t, label+"B", len(bounds))]
 			case 1:
-				v = bounds[rapid.IntRange(0, len(bounds)-1).Draw(t, label+"B")] + rapid.IntRange(-2, 2).Draw(t, label+"D")
+				v = bounds[c03U(t, label+"B", len(bounds))] + rapid.IntRange(-2, 2).Draw(t, label+"D")
 			default:
 				v = rapid.IntRange(0, total).Draw(t, label)
 			}
@@ -843,14 +860,14 @@ func c03GenManifest(t *rapid.T, env *c03Env) (string, []c03FileSpec, []*c03Block
 			}
 			return v
 		}
-		ntok := rapid.IntRange(1, 3).Draw(t, fmt.Sprintf("s%dTokens", si))
+		ntok := c03UR(t, fmt.Sprintf("s%dTokens", si), 1, 3)
 		idx := map[string]int{}
 		prev := ""
 		for ti := 0; ti < ntok; ti++ {
 			pos := pick(fmt.Sprintf("s%dt%dPos", si, ti), 0)
 			end := pick(fmt.Sprintf("s%dt%dEnd", si, ti), pos)
 			name := fmt.Sprintf("f%d", ti)
-			if prev != "" && rapid.IntRange(0, 3).Draw(t, fmt.Sprintf("s%dt%dSame", si, ti)) == 0 {
+			if prev != "" && c03U(t, fmt.Sprintf("s%dt%dSame", si, ti), 4) == 0 {
 				name = prev
 			}
 			prev = name
@@ -886,7 +903,7 @@ func TestVerifC03File(t *testing.T) {
 			return false
 		}
 		c03GenScripts(t, env, 45)
-		file := files[rapid.IntRange(0, len(files)-1).Draw(t, "file")]
+		file := files[c03U(t, "file", len(files))]
 		F := file.content
 		var hist []string
 		fail := func(format string, args ...interface{}) {
@@ -947,7 +964,7 @@ func TestVerifC03File(t *testing.T) {
 			return false
 		}
 		genBS := func(label string) int {
-			switch rapid.IntRange(0, 4).Draw(t, label+"Class") {
+			switch c03U(t, label+"Class", 5) {
 			case 0:
 				return 1
 			case 1:
@@ -959,13 +976,13 @@ func TestVerifC03File(t *testing.T) {
 			}
 			return rapid.IntRange(1, 1000).Draw(t, label)
 		}
-		nops := rapid.IntRange(1, 8).Draw(t, "nOps")
+		nops := c03UR(t, "nOps", 1, 8)
 		for i := 0; i < nops; i++ {
 			lbl := fmt.Sprintf("op%d", i)
-			switch rapid.IntRange(0, 9).Draw(t, lbl) {
+			switch c03U(t, lbl, 10) {
 			case 0, 1, 2:
 				var off int64
-				whence := rapid.SampledFrom([]int{io.SeekStart, io.SeekStart, io.SeekCurrent, io.SeekEnd}).Draw(t, lbl+"Whence")
+				whence := []int{io.SeekStart, io.SeekStart, io.SeekCurrent, io.SeekEnd}[c03U(t, lbl+"Whence", 4)]
 				target := rapid.IntRange(0, len(F)+2).Draw(t, lbl+"Target")
 				switch whence {
 				case io.SeekStart:
@@ -1064,7 +1081,7 @@ func TestVerifC03Concurrent(t *testing.T) {
 		c03GenScripts(t, env, 40)
 		script := env.scriptString()
 		mtext := fmt.Sprintf(". %s 0:%d:f\n", blk.loc, len(content))
-		nreaders := rapid.IntRange(2, 8).Draw(t, "nReaders")
+		nreaders := c03UR(t, "nReaders", 2, 8)
 		type plan struct {
 			kind      string
 			off, plen []int
@@ -1073,16 +1090,16 @@ func TestVerifC03Concurrent(t *testing.T) {
 		plans := make([]plan, nreaders)
 		for i := range plans {
 			p := &plans[i]
-			p.kind = rapid.SampledFrom([]string{"readat", "readat", "file"}).Draw(t, fmt.Sprintf("r%dKind", i))
+			p.kind = []string{"readat", "readat", "file"}[c03U(t, fmt.Sprintf("r%dKind", i), 3)]
 			if p.kind == "readat" {
-				k := rapid.IntRange(1, 3).Draw(t, fmt.Sprintf("r%dCount", i))
+				k := c03UR(t, fmt.Sprintf("r%dCount", i), 1, 3)
 				for j := 0; j < k; j++ {
 					off := rapid.IntRange(0, len(content)).Draw(t, fmt.Sprintf("r%dOff%d", i, j))
 					p.off = append(p.off, off)
 					p.plen = append(p.plen, rapid.IntRange(0, len(content)-off+2).Draw(t, fmt.Sprintf("r%dLen%d", i, j)))
 				}
 			} else {
-				p.bs = rapid.SampledFrom([]int{1 << 20, 70000, 4096}).Draw(t, fmt.Sprintf("r%dBuf", i))
+				p.bs = []int{1 << 20, 70000, 4096}[c03U(t, fmt.Sprintf("r%dBuf", i), 3)]
 			}
 		}
 		results := make([][]c03ConcResult, nreaders)
